@@ -724,8 +724,16 @@ func (p *c10) invalidNumerals(x *res, adapter string) {
 // reads a missing member as NULL), it is no runtime fault, and the table still reads and writes afterwards.
 func (p *c10) malformedValues(x *res, adapter string) {
 	spec := mon.SpecHashRange("tbl10m")
-	for _, kind := range []string{"nil", "empty", "two-types", "null-false"} {
+	for _, kind := range []string{"nil", "empty", "two-types", "null-false", "nil-number-set-member", "nil-string-set-member"} {
 		bad := val.Invalid(kind)
+		switch kind {
+		case "nil-number-set-member":
+			// (a nil pointer among the members through the SDK v1 adapter; through SDK v2, whose sets hold strings, a
+			// member that is no numeral)
+			bad = val.V{K: val.KNS, Set: []string{adapt.NilName, "1"}}
+		case "nil-string-set-member":
+			bad = val.V{K: val.KSS, Set: []string{"a", adapt.NilName}}
+		}
 		forms := []val.Item{
 			{"a": bad},
 			{"l": val.List(val.Str("x"), bad)},
